@@ -1,9 +1,13 @@
+mod alloc_count;
 mod engine;
 mod gen;
 mod props;
 mod sim;
 
 use engine::*;
+
+#[global_allocator]
+static GLOBAL: alloc_count::Counting = alloc_count::Counting;
 
 fn usage() -> ! {
     eprintln!("usage: vcheck <C01..C18> [--tier quick|thorough] [--seed N]\n       vcheck replay <file.json>\n       vcheck list");
@@ -43,6 +47,8 @@ fn main() {
     }
     let workers = std::env::var("VERIF_WORKERS").ok().and_then(|s| s.parse().ok()).unwrap_or_else(|| std::thread::available_parallelism().map(|n| n.get()).unwrap_or(8).min(16));
     match args[0].as_str() {
+        "codec-worker" => props::c14::worker_main(),
+        "codec-one" => props::c14::one_main(),
         "list" => {
             for p in props::ALL {
                 println!("{p}");
